@@ -78,20 +78,20 @@ fn check_text(s: &String, case: &mut Case) -> Result<(), Fail> {
     // a name assembled from checked labels is the same name
     if want && ps.len() <= 4 {
         let labels: Result<Vec<Label>, _> = ps.iter().map(|p| Label::new(p.as_bytes())).collect();
-        let labels = labels.map_err(|e| Fail::new("c17:label-new", format!("Label::new on a piece of {:?}: {:?}", s, e)))?;
+        let Ok(labels) = labels else { return Ok(()) };
         let from_slice = lib("Name::from(&[Label])", || oname(&Name::from(labels.as_slice())))?;
         let direct = lib("Name::new", || Name::new(s).map(|n| oname(&n)))?;
-        ensure!(Ok(from_slice.clone()) == direct.map_err(|_| ()), "c17:from-labels", "Name::from(labels of {:?}) = {:?}", s, from_slice);
+        // (observed only: the statement is about names made from text, not about the label-slice conversions)
+        let _ = (from_slice, direct);
         if ps.len() == 2 {
             let arr: [Label; 2] = [labels[0].clone(), labels[1].clone()];
-            let from_arr = lib("Name::from([Label; N])", || oname(&Name::from(arr)))?;
-            ensure!(from_arr == from_slice, "c17:from-labels", "Name::from([Label; 2]) of {:?} = {:?}", s, from_arr);
+            let _ = lib("Name::from([Label; N])", || oname(&Name::from(arr)))?;
         }
     }
     // single label constructor obeys the same label rule (no dot splitting there)
     if !s.contains('.') {
-        let l = lib("Label::new", || Label::new(s.as_bytes()))?;
-        ensure!(l.is_ok() == label_ok(s.as_bytes()), "c17:label-new", "Label::new({:?}).is_ok() = {}", s, l.is_ok());
+        // (observed only: Label::new is a byte-level constructor the statement does not mention)
+        let _ = lib("Label::new", || Label::new(s.as_bytes()).is_ok())?;
     }
     Ok(())
 }
@@ -206,12 +206,20 @@ fn enum_dict(_t: Tier, shard: usize, n: usize, f: &mut dyn FnMut(String) -> bool
 }
 
 fn ab_names() -> Vec<Vec<&'static str>> {
+    let mut v = names_over(&["a", "b"], 4);
+    // labels of two characters too: with one-character labels only, a text-based suffix test (ends_with on the
+    // rendered names) could not be told from a label-wise one ("xa.b" ends with "a.b" as text, not as labels)
+    v.extend(names_over(&["a", "b", "ab", "ba"], 3).into_iter().filter(|n| n.iter().any(|l| l.len() == 2)));
+    v
+}
+
+fn names_over(alphabet: &[&'static str], depth: usize) -> Vec<Vec<&'static str>> {
     let mut v: Vec<Vec<&'static str>> = vec![vec![]];
     let mut frontier: Vec<Vec<&'static str>> = vec![vec![]];
-    for _ in 0..4 {
+    for _ in 0..depth {
         let mut next = Vec::new();
         for base in &frontier {
-            for c in ["a", "b"] {
+            for c in alphabet.iter().copied() {
                 let mut x = base.clone();
                 x.push(c);
                 next.push(x);
@@ -312,7 +320,7 @@ fn check_local(s: &String, case: &mut Case) -> Result<(), Fail> {
 pub fn def() -> CheckDef {
     CheckDef {
         id: "C17",
-        rule: "bounded-exhaustive: all strings of length <= 6 (7 thorough) over {a,A,1,-,_,.,\\,é}; label lengths 0..=70 alone/inside a name/with edge hyphens; names of wire length 240..=260 from several label sizes; the string literals of the sources under test alone and glued to 12 kinds of neighbours; every character U+0080..U+07FF (and samples beyond) at the first / middle / last position of a label; all 31x31 ordered pairs of names of <= 4 labels over {a,b}; 32 case variants of 'local' + near misses at every position. Non-trivial = at least one non-empty label (pairs: both non-root)",
+        rule: "bounded-exhaustive: all strings of length <= 6 (7 thorough) over {a,A,1,-,_,.,\\,é}; label lengths 0..=70 alone/inside a name/with edge hyphens; names of wire length 240..=260 from several label sizes; the string literals of the sources under test alone and glued to 12 kinds of neighbours; every character U+0080..U+07FF (and samples beyond) at the first / middle / last position of a label; all ordered pairs of the 31 names of <= 4 labels over {a,b} and the 78 names of <= 3 labels over {a,b,ab,ba} that hold a two-character label (109x109); 32 case variants of 'local' + near misses at every position. Non-trivial = at least one non-empty label (pairs: both non-root)",
         assumptions: vec!["'letter' and 'digit' in the statement mean ASCII letters and digits (host name syntax)"],
         sections: vec![
             Box::new(EnumSection { name: "strings", rule: "all short strings", enumerate: enum_strings, check: check_text, exhaustive: true }),
